@@ -272,8 +272,14 @@ def main():
         st = extract.main()
         bad = [k for k, v in st.items() if not v["ok"]]
         print("extract:", len(st), "generators;", "failed:", bad)
-        b = lean.build([], timeout=6000)
+        # everything: models, driver and every theorem module, so that the per-property checks start from a warm build
+        props = sorted("H5.Props." + f[:-5] for f in os.listdir(os.path.join(VERIF, "lean", "H5", "Props")) if f.endswith(".lean"))
+        b = lean.build(["H5", "driver"], timeout=6000)
         print(b["log"][-3000:])
+        if b["ok"]:
+            # best effort: a theorem module that no longer builds is reported by its own property check, not by setup
+            pb = lean.build(props, timeout=6000)
+            print("theorem modules: %s (%.0fs)" % ("all built" if pb["ok"] else "some failed to build (see the property checks)", pb["wall_s"]))
         return 0 if b["ok"] else 1
     import importlib
     mod = importlib.import_module("props." + a.prop)
